@@ -11,16 +11,16 @@ def conds(tier):
     out.append(Cond("tree1k", core.mk_tree(P, 3, 3, 1, single_kind=True), core.tree_params(3, 3, 1, True),
                     pin=2, budget=120, family="F-TREE(3,3,1) single kind: flushes == critical path",
                     encodes=core.ENC_SCHED))
-    out.append(Cond("tree", core.mk_tree(P, 3, 2, 2), core.tree_params(3, 2, 2), pin=3, budget=120,
+    out.append(Cond("tree", core.mk_tree(P, 3, 2, 2), core.tree_params(3, 2, 2), builds=("C", "P"), pin=3, budget=120,
                     family="F-TREE(3,2,2)", encodes=core.ENC_SCHED))
-    out.append(Cond("steps", core.mk_steps(P, 2, 3, 2, 2), core.steps_params(2, 3, 2, 2), pin=3, budget=200,
+    out.append(Cond("steps", core.mk_steps(P, 2, 3, 2, 2), core.steps_params(2, 3, 2, 2), builds=("C", "P"), pin=3, budget=200,
                     family="F-STEPS(2,3,2)", encodes=core.ENC_SCHED))
-    out.append(core.seq_cond("seq", P, 3, 2))
+    out.append(core.seq_cond("seq", P, 3, 2, builds=("C", "P")))
     out.append(core.shape_cond("shape", P, [4, 5, 6, 7, 13, 15] if q else list(range(20)), fam.OK_MENU, 3 if q else 4,
                                budget=200 if q else 900, slim=q))
-    out.append(Cond("dag", core.mk_dag(P), core.DAG_PARAMS, pin=3, budget=120, family="F-DAG",
+    out.append(Cond("dag", core.mk_dag(P), core.DAG_PARAMS, builds=("C", "P"), pin=3, budget=120, family="F-DAG",
                     encodes=core.ENC_SCHED))
-    out.append(core.fault_cond("fault", P, [4], g0modes=3, g1modes=3, pin=4, budget=200))
+    out.append(core.fault_cond("fault", P, [4], g0modes=2 if q else 3, g1modes=3, pin=4, budget=200, slim=q))
     if not q:
         out.append(Cond("tree4", core.mk_tree(P, 4, 3, 3), core.tree_params(4, 3, 3), pin=4, budget=900,
                         family="F-TREE(4,3,3)", encodes=core.ENC_SCHED))
